@@ -270,7 +270,7 @@ def run_limits(acc):
 
 def tier_params(tier, seed):
     if tier == 'quick':
-        return {'choices': [seed % 3], 'maxperm': 7, 'maxdeg': 7}
+        return {'choices': [seed % 3], 'maxperm': 6, 'maxdeg': 7}
     return {'choices': [0, 1, 2], 'maxperm': 8, 'maxdeg': 8}
 
 
@@ -312,7 +312,7 @@ def expected_classes(tier):
         out.append('exact/deg%d/bezier_point/certified' % n)
         out.append('exact/deg%d/split_bezier/certified' % n)
         out.append('exact/deg%d/bezier2polynomial/certified' % n)
-    for n in range(1, 8):
+    for n in range(1, 7):
         out.append('roots/deg%d/all_permutations' % n)
     return out
 
